@@ -194,6 +194,7 @@ func traceFeatures(c *mon.Child, tr *gram.Trace) {
 	c.FeatureN("ref_literal_matched_by_case_folding", int64(tr.CIFolded))
 	c.FeatureN("ref_elided_token_at_backtrack_point", int64(tr.ElidedAtBacktrack))
 	c.FeatureN("ref_named_elided_token_matched", int64(tr.NamedElidedMatch))
+	c.FeatureN("ref_explicit_EOF_matched", int64(tr.EOFMatched))
 	c.FeatureN("ref_nonempty_group_failed", int64(tr.NonEmptyFailed))
 	for k, v := range tr.ByKind {
 		c.FeatureN("ref_"+k, int64(v))
